@@ -4,7 +4,7 @@
    specification = C11.NodeSpec (Node 20's documented algorithm), scope
    predicates = C11.Scope.  Outcomes are compared in the property's classes:
    resolved to the same path / same package re-resolution / refused. *)
-From V Require Import Common.Base C11.Str C11.EsbuildResolve C11.NodeSpec C11.SortLemmas C11.Scope C11.ResolveProofs C11.Walk C11.NodeWalkSpec C11.WalkProofs C11.CondsExt C11.WalkCore C11.WalkMain.
+From V Require Import Common.Base C11.Str C11.EsbuildResolve C11.NodeSpec C11.SortLemmas C11.Scope C11.ResolveProofs C11.Walk C11.NodeWalkSpec C11.WalkProofs C11.CondsExt C11.WalkCore C11.WalkMain C11.WalkImport.
 Local Open Scope string_scope.
 
 (* esmParsePackageName = PACKAGE_RESOLVE steps 2, 4-7, for every specifier *)
@@ -286,14 +286,8 @@ Print Assumptions package_resolve_eq_refuted_nameless_self_reference.
 (* ---- ES-module entry (import): relative and absolute specifiers, every file
    system, no hypothesis: whenever Node's ESM_RESOLVE resolves (no extension
    search, no directory index), esbuild resolves to the same file.
-   NOT YET PROVED for import: bare and "#" specifiers (PACKAGE_RESOLVE with the
-   legacy main lookup against loadNodeModules); the proof attempt shows that it
-   additionally needs: no file node_modules/<name>(.js|.json|.node) next to or
-   instead of the package directory (esbuild, like CommonJS, tries it first),
-   no node_modules/node_modules directory, and an "imports" map in the scope of a
-   "#" specifier (Node: Package Import Not Defined; esbuild goes on to
-   node_modules/#...).  That branch is tied by correspondence only
-   (import_resolve vs import.meta.resolve, Walk.resolve vs esbuild). *)
+   Bare and "#" specifiers of import: import_package_resolve_partial /
+   import_imports_resolve_partial below. *)
 Theorem import_relative_partial : forall builtin fs user dir x,
   builtin x = false -> is_package_path x = false ->
   agree_import (resolve builtin fs KImport user dir x) (import_resolve builtin fs user dir x).
@@ -311,3 +305,50 @@ Theorem import_resolve_eq_refuted_file_shadows_package :
   /\ require_resolve (fun _ => false) w_shadow_fs [] [] (s_ "dep") = NFile (pw_ ["node_modules"; "dep.js"]).
 Proof. exact refuted_import_file_shadows_package. Qed.
 Print Assumptions import_resolve_eq_refuted_file_shadows_package.
+
+(* ---- ES-module entry, bare and "#" specifiers: loadNodeModules (import kind)
+   against PACKAGE_RESOLVE / PACKAGE_SELF_RESOLVE / PACKAGE_IMPORTS_RESOLVE with
+   the legacy main lookup, every finite file system.
+   [agree_import]: Node's import resolves to p => esbuild resolves to p; Node
+   rejects (exports/imports map, invalid specifier) => esbuild refuses; builtin =>
+   builtin; nothing is required when Node only fails to find a file (esbuild
+   probes extensions and directory indexes for import too).
+   Further hypotheses (beyond those of package_resolve_eq_partial):
+     no_nested_nm      no node_modules directory directly inside a node_modules directory
+                       (Node's ESM walk looks there, esbuild skips it);
+     no_module_file    D14: no file node_modules/<name>(.js|.json|.node) next to or instead
+                       of the package directory;
+     for "#": the package scope has an "imports" map (otherwise Node answers Package Import
+     Not Defined while esbuild goes on to node_modules/#...), builtin x = false. *)
+Theorem import_package_resolve_partial : forall builtin fs, wf_fs fs -> no_ts_rewrite fs -> no_nested_nm fs ->
+  no_case_collision fs = true ->
+  forall user dir x,
+  is_package_path x = true -> prefixb [ch_hash] x = false ->
+  bare_ok x = true -> pkgs_ok fs x -> no_module_file fs x ->
+  agree_import (resolve builtin fs KImport user dir x) (import_resolve builtin fs user dir x).
+Proof. exact (fun b fs Hw Ht Hn _ => import_bare_all b fs Hw Ht Hn). Qed.
+Print Assumptions import_package_resolve_partial.
+
+Theorem import_imports_resolve_partial : forall builtin fs, wf_fs fs -> no_ts_rewrite fs -> no_nested_nm fs ->
+  no_case_collision fs = true ->
+  forall user dir x pdir pk im,
+  is_package_path x = true -> prefixb [ch_hash] x = true -> builtin x = false ->
+  package_scope fs (length dir) dir = Some (pdir, pk) -> pk_imports pk = Some im ->
+  pkgs_imports_ok fs x -> import_remap_ok builtin fs user x ->
+  agree_import (resolve builtin fs KImport user dir x) (import_resolve builtin fs user dir x).
+Proof. exact (fun b fs Hw Ht Hn _ => import_imports_all b fs Hw Ht Hn). Qed.
+Print Assumptions import_imports_resolve_partial.
+
+Theorem import_hypotheses_are_decidable : forall fs x,
+  (no_nested_nmb fs = true -> no_nested_nm fs) /\ (no_module_fileb fs x = true -> no_module_file fs x).
+Proof. exact (fun fs x => conj (no_nested_nmb_sound fs) (no_module_fileb_sound fs x)). Qed.
+Print Assumptions import_hypotheses_are_decidable.
+
+(* without "the scope has an imports map" the "#" statement for import is false of
+   the faithful model (finding D15, harness witness "import-hash-specifier-without-imports-map") *)
+Theorem import_imports_refuted_without_imports_map :
+  wf_fsb w_hash_fs = true /\ no_tsb w_hash_fs = true /\ no_nested_nmb w_hash_fs = true
+  /\ resolve (fun _ => false) w_hash_fs KImport [] [] (s_ "#x") = RFile (pw_ ["node_modules"; "#x"; "index.js"])
+  /\ import_resolve (fun _ => false) w_hash_fs [] [] (s_ "#x") = NRejected EImportNotDefined.
+Proof. exact refuted_import_hash_without_imports. Qed.
+Print Assumptions import_imports_refuted_without_imports_map.
